@@ -122,6 +122,15 @@ for cls, n in ((1, 6), (1, 13), (1, 14), (2, 5), (3, 5), (4, 5), (24, 8), (24, 1
 for cls, n in ((2, 8), (3, 8), (24, 15), (5, 10), (5, 20), (6, 25), (10, 14), (11, 12), (12, 10), (14, 10)):
     KLEX(n, 1, cls, "t", cap=3600, mem=10)
 
+# ---------------------------------------------------------------------------- C06 (kernel)
+for L in (0, 1, 2, 3, 4):
+    H(f"c06_q_params_l{L}", "C06", f"c06::params::<{L}, _>",
+      f"Parameters over every lexable token stream of {L} tokens after a header (data, ',', ';', lexer error) driven by 3 "
+      f"calls, each next_token (required) or next_optional_token: the i-th successful call returns the i-th data element "
+      f"before the first ';', a required call past it -109, an optional one None, a lexer error as is; only data elements "
+      f"are ever handed out (parser_unreachable! is dead)", f"all lexable token scripts of length {L}; all 8 usage scripts",
+      cap_s=900, mem_gb=7, stubset="tok", unwind=max(L + 3, 5), also=["C01"], sample=(L == 1))
+
 # ---------------------------------------------------------------------------- C07
 def F(t):
     return "f32" if t in ("u8", "i8", "u16", "i16") else "f64"
@@ -711,6 +720,25 @@ PROPS["C11"] = {
                   "(returns the formatter's first error, stops writing).",
     "level_note": "Trusted: Kani/CBMC/CaDiCaL; Kani's model of ArrayVec's MaybeUninit storage; the no-alloc build "
                   "configuration of the harness crate for these harnesses.",
+}
+
+PROPS["C06"] = {
+    "bounds": {"quick": "Parameters kernel: every lexable token stream of 0..4 tokens after a header, every usage script "
+                        "of 3 required/optional calls",
+               "thorough": "plus the dispatcher at token level (RL-tok): handlers pulling 0..2 required/optional "
+                           "parameters on every lexable 1..3-token script (4 attempted) - offered tokens, -109, -108 before "
+                           "the next unit starts"},
+    "outside": "the post-handler -108 check lives in run_tokens and is decided only at token level in the thorough tier; "
+               "data element CONTENT is represented by its kind (number / character data): that the token payload is the "
+               "unmodified input bytes is C04's exact-byte-range obligation; more than 4 tokens per unit; leading comma "
+               "`A ,1` (accepted by the library as `A 1`; malformed input, outside C06's quantifier)",
+    "assumptions": ["token streams are restricted to sequences the real lexer can emit (token-successor automaton, decided "
+                    "on the real lexer by C04); the native replay spells the script out and lexes it with the real lexer"],
+    "level_text": "Bounded model checking of the real Parameters iterator over a symbolic token stream and a symbolic "
+                  "usage script against a cursor reference; the dispatcher-side arity check is decided by the token-level "
+                  "run harnesses (thorough).",
+    "level_note": "Trusted: Kani/CBMC/CaDiCaL; the token-script stub of <Tokenizer as Iterator>::next and the `lexable` "
+                  "automaton (checks/rl.rs).",
 }
 
 # properties whose check is still being built (kept current as the work proceeds)
